@@ -566,3 +566,110 @@ def run_det(case, M, tier="quick"):
 
 def flat(steps):
     return [p for ys, _ in steps for p in ys]
+
+
+# --------------------------------------------------------------------------- one case, unambiguous family
+def run_u(case, M, tier="quick"):
+    from synth.syntax.grammars.tagged_u_grammar import ProbUGrammar
+    from synth.syntax.grammars.enumeration.u_heap_search import UHeapSearch, BucketSearch
+    b = dict(case["build"])
+    g = build_grammar(b)
+    if g is None:
+        return {"trivial": "constructor:" + b.get("_error", "?")}
+    if not g.starts or any(S not in g.rules for S in g.starts):
+        return {"trivial": "empty"}
+    if case["order"] != "built":
+        rng = random.Random(case["oseed"])
+        new = {}
+        for S, rs in g.rules.items():
+            inner = {}
+            for P, alts in rs.items():
+                alts = list(alts)
+                if case["order"] == "reversed":
+                    alts.reverse()
+                else:
+                    rng.shuffle(alts)
+                inner[P] = alts
+            new[S] = reorder(inner, case["order"], rng)
+        g.rules = reorder(new, case["order"], rng)
+    starts = list(g.starts)
+    limit = MAX_LANG[tier]
+    res = None
+    for attempt in (case["weights"], "pow2"):
+        rng = random.Random(case["wseed"])
+        weights = {S: {P: {tuple(v): pick_weight(rng, attempt, sum(len(a) for a in rs.values())) for v in alts} for P, alts in rs.items()}
+                   for S, rs in g.rules.items()}
+        start_w = {S: pick_weight(rng, attempt, len(starts)) for S in starts}
+        try:
+            lang = expand_u(g, weights, start_w, limit)
+        except TooLarge:
+            return {"trivial": "too-large"}
+        except RecursionError:
+            return {"trivial": "cyclic"}
+        if all(exact_float(w) for _, w, _ in lang):
+            res = attempt
+            break
+    if res is None:
+        return {"trivial": "inexact-weights"}
+    if any(len(set(map(tuple, alts))) != len(alts) for rs in g.rules.values() for alts in rs.values()):
+        return {"trivial": "duplicate-alternative"}
+    pu = ProbUGrammar(g, {S: {P: {v: float(w) for v, w in d.items()} for P, d in ws.items()} for S, ws in weights.items()},
+                      {S: float(w) for S, w in start_w.items()})
+    lang_sorted = sorted(show(p) for p, _, _ in lang)
+    pred = make_filter(case.get("filter"), lang_sorted)
+    e = case["enum"]
+    thr = Fraction(e.get("threshold", "0"))
+
+    def fresh():
+        if e["kind"] == "heap":
+            en = UHeapSearch(pu, float(thr))
+        else:
+            en = BucketSearch(pu, e["size"])
+        if pred is not None:
+            en.filter = HFilter(pred)
+        return en
+    en = fresh()
+    plan = plan_of(case, len(lang))
+    steps, script, err = run_script(en, plan, 4 * limit + 10)
+    wire = Wire()
+    gw = wire.ucfg(g, weights, starts, start_w)
+    rejected = [p for p, _, _ in lang if pred is not None and not pred(p)]
+    kindw = [Sym("heap"), frac(thr)] if e["kind"] == "heap" else [Sym("bucket"), e["size"]]
+    scriptw = [[Sym("take"), a[1]] if a[0] == "take" else [Sym("merge"), wire.prog(a[1])] for a in script]
+    fixed = hasattr(en, "__push_next_from_start__")
+    ans = M.ask([Sym("hs.u"), gw, kindw, [wire.prog(p) for p in rejected], scriptw, FUEL, fixed])
+    corr = []
+    nstarts_used = len({S for _, _, S in lang})
+    out = {"g": g, "weights": weights, "start_w": start_w, "lang": [(p, w) for p, w, _ in lang], "lang_starts": lang, "steps": steps,
+           "script": script, "err": err, "wmode": res, "pred": pred, "en": en, "wire": wire, "thr": thr, "corr": corr, "model": None,
+           "rejected": rejected, "nstarts": len(starts), "nstarts_used": nstarts_used, "fresh": fresh, "pu": pu, "fixed": fixed,
+           "constraints": b.get("_constraints")}
+    if ans[0] == "undef":
+        if err is None:
+            corr.append(("model undefined (fuel or uncaught exception) where the implementation runs", ""))
+        return out
+    if err is not None:
+        corr.append(("implementation raises where the model runs", err))
+        return out
+    _, msteps, mchains, mheaps, mdeleted, mstart = ans
+    m_steps = [([show(wire.unprog(p)) for p in ys], fin == "1") for ys, fin in msteps]
+    i_steps = [([show(p) for p in ys], fin) for ys, fin in steps]
+    out["model"] = m_steps
+    if m_steps != i_steps:
+        fi, fm = sum((s[0] for s in i_steps), []), sum((s[0] for s in m_steps), [])
+        d = next((k for k, (a, c) in enumerate(zip(fi, fm)) if a != c), None)
+        corr.append(("yielded sequence differs from the model", f"first difference at position {d}: impl {fi[d:d+3] if d is not None else len(fi)} model {fm[d:d+3] if d is not None else len(fm)}"))
+    i_chains = [[show(of_prog(p)) for p in chain_of(en.succ[S])] for S in g.rules]
+    m_chains = [[show(wire.unprog(p)) for p in ch] for ch in mchains]
+    if i_chains != m_chains:
+        k = next(k for k, (a, c) in enumerate(zip(i_chains, m_chains)) if a != c)
+        corr.append(("pop order of a non-terminal differs from the model", f"non-terminal #{k}: impl {i_chains[k][:6]} model {m_chains[k][:6]}"))
+    i_heaps = [[show(of_prog(el.program)) for el in en.heaps[S]] for S in g.rules]
+    m_heaps = [[show(wire.unprog(el[1])) for el in h] for h in mheaps]
+    if i_heaps != m_heaps:
+        corr.append(("heap arrays differ from the model", ""))
+    if [show(of_prog(el.program)) for el in en._start_heap] != [show(wire.unprog(el[1])) for el in mstart]:
+        corr.append(("start heap differs from the model", ""))
+    if sorted(show(of_prog(p)) for p in en.deleted) != sorted(show(wire.unprog(p)) for p in mdeleted):
+        corr.append(("deleted set differs from the model", ""))
+    return out
